@@ -23,3 +23,26 @@ Proof.
       (fun h2 t uc h1 E => proj1 (proj1 (proj2 (proj2 H)) h2 t uc h1 E)))).
 Qed.
 Print Assumptions C03_submit_once_needed_cached.
+
+(* ---- the object layer: several distinct task objects may denote the same task (compare equal).  The walk over objects
+   (process_tasks with get_direct_dependency_instances, one visit per object) reaches exactly the objects reachable from the
+   requested objects without passing through a task served from the cache, each once; seen through "denotes the same
+   task" it is the task-level plan above. *)
+Require Import LT.Model.ObjPlan LT.Proofs.ObjProofs.
+Theorem C03_object_walk_is_task_plan : forall c g, wf c -> denotes c g = true ->
+  NoDup (oplan c g) /\
+  (forall o, In o (oplan c g) <-> Needed (obj_cfg c g) o) /\
+  (forall t, In t (plan c) <-> exists o, In o (oplan c g) /\ cls_of g o = t).
+Proof.
+  exact (fun c g Hw Hd => conj (proj1 (oplan_spec c g Hd)) (conj (proj2 (oplan_spec c g Hd)) (oplan_classes c g Hw Hd))).
+Qed.
+Print Assumptions C03_object_walk_is_task_plan.
+
+(* Completing the tasks in ok (executed or loaded successfully) sets result_meta on every visited instance of them — every
+   equal object, each once — and on no other object: in particular not on the dependencies of a task that was served from
+   the cache. *)
+Theorem C03_every_instance_marked : forall c g ok, denotes c g = true ->
+  NoDup (marked c g ok) /\
+  (forall o, In o (marked c g ok) <-> Needed (obj_cfg c g) o /\ In (cls_of g o) ok).
+Proof. exact (fun c g ok Hd => conj (marked_NoDup c g Hd ok) (marked_spec c g Hd ok)). Qed.
+Print Assumptions C03_every_instance_marked.
